@@ -101,7 +101,9 @@ class ScriptGen:
                 L.append("start %d %s %s" % (i, self.gv(), self.plan(False, self.startsubs))); running[i] = True; continue
             if self.copy and r < self.copy and self.ninst > 1:
                 j = self.rnd.choice([k for k in range(self.ninst) if k != i])
-                L.append("%s %d %d" % (self.rnd.choice(["copy", "assign"]), i, j)); running[j] = True; continue
+                # copy-construct only into a slot that holds no object yet (an object must not be destroyed while closures may refer to it)
+                op = "assign" if j in running else self.rnd.choice(["copy", "assign"])
+                L.append("%s %d %d" % (op, i, j)); running[j] = True; continue
             r = self.rnd.random()
             if r < self.restart:
                 L.append("stop %d %s -" % (i, self.gv())); running[i] = False
